@@ -23,8 +23,9 @@ AsCodedRoundDiv(tag, x, y) ==
            IN CBin("div", num, y)
       [] tag = "tie_to_pos_inf" ->
            LET flip == RIsNeg(y)
-               l == IF flip = "T" THEN CUn("neg", x) ELSE x
-               rr == IF flip = "T" THEN CUn("neg", y) ELSE y
+               \* step1 negates in the result type (decltype(lhs / rhs)) since the fix of the unsigned-dividend wrap
+               l == IF flip = "T" THEN CUn("neg", CConv(x, r)) ELSE x
+               rr == IF flip = "T" THEN CUn("neg", CConv(y, r)) ELSE y
                ln == RIsNeg(l)
                bias == CBin("div", CBin("sub", rr, RSel(ln, RLit(1), RLit(0))), RLit(2))
                qq == CBin("div", CBin("add", RAbs(l), bias), rr)
